@@ -605,6 +605,19 @@ def get_provider_ids_matching(rg_ctx):
         # would return the internal ID and the root ID as well for each RP.
         provs_with_resource = get_providers_with_root(
             rg_ctx.context, filtered_rps, forbidden_rp_ids)
+        if rg_ctx.tree_root_id is not None:
+            # For a group with resources the in_tree filter is applied by
+            # the per-resource-class queries above; a group without
+            # resources has to apply it here.
+            provs_with_resource = set(
+                rpids for rpids in provs_with_resource
+                if rpids[1] == rg_ctx.tree_root_id)
+        if not filtered_rps:
+            # An empty filtered_rps means that no required trait or
+            # aggregate narrowed the search (the group only has forbidden
+            # traits/aggregates or in_tree), not that nothing matched:
+            # every provider found above qualifies.
+            return list(provs_with_resource)
 
     # provs_with_resource will contain a superset of providers with IDs still
     # in our filtered_rps set. We return the list of tuples of
